@@ -20,5 +20,10 @@ def run(run):
     gsm.bfs_slice(run, 'C14', 4 if quick else 5, keep=KEEP)
     gsm.simulate(run, 'C14', 9, 3000 if quick else 50000, keep=KEEP, free=False, timeout=300 if quick else 1800)
     gsm.simulate(run, 'C14', 12, 1500 if quick else 30000, keep=KEEP, timeout=300 if quick else 1800)
+    # larger, model-less graphs: the Gen_AprioriBig families, analysed and deep-copied: same graph as the case, no shared node
+    # object, own lookups; pruning / relabelling the copy leaves the original untouched and the other way round
+    run.gen_replay('Gen_AprioriBig', 'Gen_AprioriBig.cfg', 'harness.replay_persist_big', {'seed': run.seed, 'mode': 'copy'},
+                   env={'VERIF_L1': 12, 'VERIF_L2': 120 if quick else 240, 'VERIF_L3': 0 if quick else 800}, timeout=900, workers=16,
+                   name='deep copy of analysed graph families of 12 / %d nodes, 2 arrival orders each' % (120 if quick else 240))
     if not quick:
         gsm.mc_slice(run, 'C14', 8, timeout=1800, depth=7, must=('DeepCopy', 'Touch'))          # larger design check last
